@@ -29,7 +29,7 @@ TARGETS = [
     ("crates/texlang/src/parse/integer.rs", ["texlang", "texlang-stdlib"], ["C06", "C07"]),
     ("crates/texlang/src/parse/dimen.rs", ["texlang", "texlang-stdlib"], ["C06"]),
     ("crates/texlang/src/parse/glue.rs", ["texlang", "texlang-stdlib"], ["C06"]),
-    ("crates/common/src/lib.rs", ["common", "texlang", "texlang-stdlib", "boxworks"], ["C06", "C15"]),
+    ("crates/common/src/lib.rs", ["common", "texlang", "texlang-stdlib", "boxworks"], ["C06", "C15", "C12"]),
     ("crates/texlang-stdlib/src/math.rs", ["texlang-stdlib"], ["C06", "C09"]),
     ("crates/texlang-stdlib/src/the.rs", ["texlang-stdlib"], ["C06"]),
     ("crates/texlang-stdlib/src/conditional.rs", ["texlang-stdlib"], ["C07"]),
